@@ -22,7 +22,7 @@ import numpy as np
 
 from . import c02, core, locate
 
-QUICK = ["q_1d", "q_1do", "q_2d", "q_2da"]
+QUICK = ["q_1d", "q_1dfar", "q_2dfar", "q_1do", "q_2d", "q_2da"]
 THOROUGH = QUICK + ["t_1d3", "t_2d", "t_2dpf", "t_2dff", "t_2da", "t_2d2", "t_3d", "t_3dm"]
 HSTEPS = [0.25, 0.125, 1.0, 0.5]
 
